@@ -430,3 +430,52 @@ def check_load(run, tree):
         run.violated(construct, fi.where(), "raises %s" % e, "second load")
     except ERR as e:
         run.unresolved(construct, fi.where(), "cannot fold: %s" % e)
+
+
+# =============================================================================== thorough tier: a product of loader scenarios
+def check_load_space(run, tree):
+    """Loader.load folded over the product ndim {1,2,3} x ncpu {1,2,3} x levelmax {2,3,4} x nboundary {0,1,2} x {no selection, level predicate}
+    x {all cpus, explicit cpu_list}, with grid-count tables containing empty (level, domain) blocks: every scenario is compared with
+    the traversal specification (one aggregated obligation per ndim)"""
+    import itertools
+    from .keydomain import reader_kinds
+    readers, kinds = reader_kinds(tree)
+    fi = tree.func(LOAD)
+    run.analysed(fi)
+    for ndim in (1, 2, 3):
+        bad, unres, n, events = [], [], 0, 0
+        for ncpu, levelmax, nb, with_level, with_list in itertools.product((1, 2, 3), (2, 3, 4), (0, 1, 2), (False, True), (False, True)):
+            n += 1
+            label = "ndim=%d ncpu=%d levelmax=%d nboundary=%d%s%s" % (ndim, ncpu, levelmax, nb, " level-predicate" if with_level else "", " cpu_list" if with_list else "")
+            try:
+                table = [[(3 * d + 2 * l + ncpu) % 4 for l in range(levelmax)] for d in range(ncpu + nb)]      # includes empty blocks
+                over = dict(ncpu=ncpu, ndim=ndim, levelmax=levelmax, nboundary=nb, ngridlevel=table, level_cap=max(1, levelmax - 1))
+                cpus = list(range(1, ncpu + 1))
+                if with_list:
+                    over["cpu_list"] = [ncpu]
+                    cpus = [ncpu]
+                if with_level:
+                    over["select"] = {"mesh": {"level": "F"}}
+                exp = dict(active=["amr", "hydro", "part"], cpus=cpus, lmax=over["level_cap"] if with_level else levelmax,
+                           select=(lambda kind: {"level": "F"} if kind == "mesh" else {}) if with_level else (lambda kind: {}), cap=True if with_level else None)
+                sc = scenario(**over)
+                sc["reader_kinds"] = kinds
+                exp["lmax_meta"] = sc["level_cap"] if exp.get("cap") else sc["levelmax"]
+                try:
+                    loader, out = run_load(tree, sc)
+                except (Raised, ProgramRaised) as e:
+                    bad.append("%s: raises %s" % (label, e))
+                    continue
+                problems = check_scenario(sc, exp, loader, out, kinds)
+                events += len(sc["trace"])
+                if problems:
+                    bad.append("%s: %s" % (label, "; ".join("%s: %s" % p for p in problems[:2])))
+            except ERR as e:
+                unres.append("%s: %s" % (label, e))
+        construct = "%s[scenario space, ndim=%d]" % (LOAD, ndim)
+        if unres:
+            run.unresolved(construct, fi.where(), "cannot fold %d scenarios, e.g. %s" % (len(unres), unres[0]))
+        else:
+            run.ob(construct, not bad, fi.where(), ("%d of %d scenarios wrong, e.g. %s" % (len(bad), n, bad[0])) if bad else
+                   "%d scenarios (%d events) follow the traversal specification" % (n, events),
+                   "for some combination of dimensions, cpus, levels, boundary regions and selection a reader misses or repeats a record, a block is selected with a partial mask or counters drift")
